@@ -19,6 +19,8 @@
  Rv verbose       : blocks guarded by the verbose flag only report; the design does not depend on the logging flag.
  Rn arg roles     : a variable named like a parameter of the callee is handed to that parameter (no exchanged roles).
  Rk field/key     : the amplifier parameter classes store every configuration entry under its own name (shared with C04).
+ R6 neighbours    : every design callee of the OMS walk receives the same running predecessor / successor variables.
+ R7 multiband narrowing: per-band candidates come from the selection narrowed by the previous bands.
 """
 import ast
 
@@ -446,6 +448,43 @@ def rk_field_key(ctx):
     ctx.need('Rk.field-key', 20)
 
 
+def r6_neighbours(ctx):
+    """R6: the permitted set is read from the element's REAL neighbours: restrictions, multiband pre-selection and design all receive
+    the walk's running predecessor and the element's successor (the booster list of the previous ROADM / the preamp list of
+    the next ROADM apply only to adjacent amplifiers)"""
+    from .common import neighbour_args_rule
+    neighbour_args_rule(ctx, 'R6.neighbours', 'a ROADM restriction would be applied to amplifiers that are not adjacent to it (or ignored for those that are)')
+    ctx.need('R6.neighbours', 3)
+
+
+def r7_multiband_narrowing(ctx):
+    """R7: a multi-band group is kept only if it can serve EVERY band: in preselect_multiband_amps the per-band candidates are drawn
+    from the selection narrowed by the bands already handled (the variable initialised from the permitted list and re-assigned
+    in the loop), not from the initial permitted list"""
+    repo = ctx.repo
+    f = repo.func(NW, 'preselect_multiband_amps')
+    R = 'restrictions' if 'restrictions' in f.params else None
+    lps = [lp for lp in walk_no_nested(f.node) if isinstance(lp, ast.For) and 'items()' in ast.unparse(lp.iter)]
+    ok = False
+    det = ''
+    if R and len(lps) == 1:
+        lp = lps[0]
+        inits = [s.targets[0].id for s in f.node.body if isinstance(s, ast.Assign) and isinstance(s.targets[0], ast.Name) and
+                 ast.unparse(s.value) in (f'list({R})', f'{R}.copy()', f'{R}[:]') and s.lineno < lp.lineno]
+        carried = [v for v in inits if any(isinstance(s, ast.Assign) and ast.unparse(s.targets[0]) == v for s in ast.walk(lp))]
+        comps = [c for c in ast.walk(lp) if isinstance(c, ast.DictComp) and any('.multi_band' in ast.unparse(g.iter) for g in c.generators)]
+        if len(carried) == 1 and len(comps) == 1:
+            src = ast.unparse(comps[0].generators[0].iter)
+            det = f'candidates drawn from {src}; narrowed selection is {carried[0]}'
+            ok = src == carried[0]
+            rets = [n for n in walk_no_nested(f.node) if isinstance(n, ast.Return) and n.value is not None]
+            ok = ok and bool(rets) and carried[0] in ast.unparse(rets[-1].value)
+    ctx.check('R7.multiband-narrowing', site(f), ok, key(f, 'narrowing'),
+              'the candidates of a band are not drawn from the selection narrowed by the previous bands: only the last band would decide '
+              'the multi-band group, and a group that cannot deliver another band be chosen', det)
+    ctx.need('R7.multiband-narrowing', 1)
+
+
 from ..memo import rule_for as _memo_rule
 
 RULES_MEMO = ('Rm.memo', _memo_rule('C10', 'a model would be ranked or judged with the figures of another library or gain'))
@@ -456,4 +495,4 @@ from ..presence import rule_for as _presence_rule
 RULES_PRESENCE = ('Rp.presence', _presence_rule('C10', 'a legal zero would be read as missing'))
 
 RULES = [('R1.precedence', r1_precedence), ('R2.band-cover', r2_band_cover), ('R3.selection', r3_selection),
-         ('R4.raman-gate', r4_raman_gate), ('R5.capability', r5_capability), RULES_MEMO, RULES_PRESENCE, ('Rv.verbose-pure', rv_verbose), ('Rn.arg-roles', rn_arg_roles), ('Rk.field-key', rk_field_key)]
+         ('R4.raman-gate', r4_raman_gate), ('R5.capability', r5_capability), RULES_MEMO, RULES_PRESENCE, ('Rv.verbose-pure', rv_verbose), ('Rn.arg-roles', rn_arg_roles), ('Rk.field-key', rk_field_key), ('R6.neighbours', r6_neighbours), ('R7.multiband-narrowing', r7_multiband_narrowing)]
